@@ -102,6 +102,16 @@ def one_block(chk, rng, kind, idx):
         obs.append((g, c))
     it = [id(x) for x in b]
     ln = len(b)
+    # iteration is repeatable and re-entrant: two iterators over one block do not disturb each other, and iterating does
+    # not change the block (not even attributes that do not show in its encoding)
+    state0 = sorted((k, id(v)) for k, v in vars(b).items())
+    pairs = [(id(x), id(y)) for x, y in zip(b, b)]
+    nested = sum(1 for _x in b for _y in b)
+    i1 = iter(b)
+    head = [id(next(i1))] if ln else []
+    full = [id(x) for x in b]                    # a complete pass while i1 is suspended
+    rest = head + [id(x) for x in i1]
+    state1 = sorted((k, id(v)) for k, v in vars(b).items())
     what = {"kind": kind, "labels": labels, "nframes": nfr, "edits_before_lookup": edits}
     chk.note_case((kind, tuple(labels), nfr), n >= 2 and len(set(labels)) < n or n >= 1)
     chk.count("%s items=%d" % (kind, n))
@@ -113,6 +123,15 @@ def one_block(chk, rng, kind, idx):
         found = "len() = %d but iteration yields %d items" % (ln, len(it))
     elif it != before_ids:
         found = "iteration does not yield the items in order"
+    if not found:
+        if pairs != [(i, i) for i in before_ids]:
+            found = "zip(block, block) pairs %d items (i-th with i-th expected for all %d)" % (len(pairs), n)
+        elif nested != n * n:
+            found = "a loop over the block nested in a loop over the block runs %d times, expected %d" % (nested, n * n)
+        elif full != before_ids or rest != before_ids:
+            found = "an iterator suspended while the block is iterated again yields %d items, the other pass %d (expected %d each)" % (len(rest), len(full), n)
+        elif state0 != state1:
+            found = "iterating changed an attribute of the block (%r)" % sorted(set(k for k, _ in set(state0) ^ set(state1)))
     for (mk, pk), (g, c) in zip(allk, obs):
         if found:
             break
@@ -175,7 +194,7 @@ def run(chk):
                 "pool built to collide (duplicates, empty, case and blank variants, non-ASCII, 255 characters); keys: every "
                 "integer in [-n-2, n+2], True, every pool label and near-miss variants, None, float, bytes, list, tuple, an "
                 "arbitrary object, item objects (the present object, an equal copy, an absent one, an item of another class); "
-                "observed: len, iteration order, block[key], key in block, and that the block's items and encoding are unchanged; "
+                "observed: len, iteration order (one pass, two simultaneous iterators, a nested loop, a suspended iterator), block[key], key in block, and that the block's items and encoding are unchanged; "
                 "non-trivial = at least one item")
     rng = common.rng_for(chk.seed, "C18")
     n = 600 if chk.tier == "quick" else 6000
